@@ -110,7 +110,12 @@ def relevant_subsets(pc, goal, levels=(1, 2)):
     hubs |= set(x for x in freq if x.startswith(('self!', 'hv', 'alloc', 'new_', 'ret_', 'H_$llen', 'H_$larr', 'H_$set',
                                                  'H_$dlen', 'H_$dkeys', 'H_$dmap', 'H_$dhas')))
     cur = set(_symbols(goal, cache)) - hubs
-    chosen = []
+    if z3.is_false(goal):
+        # "this path is infeasible": the facts that matter are the latest branch decisions
+        for p in pc[-6:]:
+            cur |= set(_symbols(p, cache)) - hubs
+    # frame / length axioms of the shared container arrays mention hub symbols only: always kept
+    chosen = [i for i in qidx if not (syms[i] - hubs)]
     out = []
     for lvl in range(max(levels)):
         new = [i for i in qidx if i not in chosen and (syms[i] - hubs) & cur]
@@ -132,18 +137,59 @@ def discharge(ob, tier='quick'):
     scale = {'quick': 1, 'thorough': 4, 'retry': 3}.get(tier, 1)
     t0 = time.time()
     neg = z3.Not(ob.goal)
-    attempts = [('z3', True, Z3_TIMEOUT_MS * scale), ('z3-ematch', False, Z3_TIMEOUT_MS * scale)]
+    full = Z3_TIMEOUT_MS * scale
+    if tier == 'expected-fail':
+        s = _solver(Z3_TIMEOUT_MS, True)
+        for p in ob.pc:
+            s.add(p)
+        s.add(neg)
+        r = s.check()
+        ob.status = 'proved' if r == z3.unsat else ('refuted' if r == z3.sat else 'unknown')
+        ob.backend = 'z3'
+        if r == z3.sat:
+            try:
+                ob.model = s.model()
+            except Exception:
+                ob.model = None
+        ob.time = time.time() - t0
+        return ob
+    quickto = max(1000, full // 6)
+    subsets = relevant_subsets(ob.pc, ob.goal) if len(ob.pc) > 40 else []
+    # a short attempt on the whole path condition first (most obligations need well under a second), then the
+    # relevance-filtered hypothesis sets, then the whole path condition again with the full budget
+    attempts = [('z3', True, quickto if subsets else full)]
     last_model = None
-    if len(ob.pc) > 40:
-        for sub in relevant_subsets(ob.pc, ob.goal):
-            s = _solver(Z3_TIMEOUT_MS * scale, True)
-            for i in sub:
-                s.add(ob.pc[i])
-            s.add(neg)
-            if s.check() == z3.unsat:
-                ob.status, ob.backend = 'proved', 'z3 (relevant hypotheses: %d of %d)' % (len(sub), len(ob.pc))
-                ob.time = time.time() - t0
-                return ob
+    first = True
+    for name, mbqi, to in attempts:
+        s = _solver(to, mbqi)
+        for p in ob.pc:
+            s.add(p)
+        s.add(neg)
+        r = s.check()
+        if r == z3.unsat:
+            ob.status, ob.backend = 'proved', name
+            ob.time = time.time() - t0
+            return ob
+        if r == z3.sat:
+            ob.status, ob.backend = 'refuted', name
+            try:
+                ob.model = s.model()
+            except Exception:
+                ob.model = None
+            ob.time = time.time() - t0
+            return ob
+        ob.detail = s.reason_unknown()
+    for sub in subsets:
+        s = _solver(max(quickto, full // 2), True)
+        for i in sub:
+            s.add(ob.pc[i])
+        s.add(neg)
+        if s.check() == z3.unsat:
+            ob.status, ob.backend = 'proved', 'z3-relevant'
+            ob.hyps = (len(sub), len(ob.pc))
+            ob.time = time.time() - t0
+            return ob
+    attempts = ([('z3', True, full)] if subsets else []) + [('z3-ematch', False, full)]
     for name, mbqi, to in attempts:
         s = _solver(to, mbqi)
         for p in ob.pc:
